@@ -7,6 +7,7 @@ from harness import gen
 from harness.framework import Suite
 
 PID = "C07"
+TRANSLATE_ALGO = ["AlgoNode", "AlgoSort", "AlgoRedirect"]   # regenerated on every run from tree_utils.py (redirect_tree, _sort_tree), tree.py / node.py (node handles)
 LEAN_MODS = ["SwcVerif.Props.C07", "SwcVerif.Props.C07Cat"]
 THEOREMS = [
     "C07.rootPath_spec", "C07.redirect_pids", "C07.redirect_edges", "C07.redirect_root", "C07.redirect_types", "C07.redirect_at_root",
@@ -92,8 +93,10 @@ class Redirect(Suite):
             return []
         t = case["tree"]
         old = [int(round(v * 8)) - 1 for v in res["r"]]
-        return [(f"redirect pids={gen.ints(t['pids'])} types={gen.ints(t['types'])} root={case['root']} sort={int(case['sort'])}",
-                 f"{gen.ints(res['pid'])} / {gen.ints(old)} / {gen.ints(res['type'])}")]
+        a = f"pids={gen.ints(t['pids'])} types={gen.ints(t['types'])} root={case['root']} sort={int(case['sort'])}"
+        return [("redirect " + a, f"{gen.ints(res['pid'])} / {gen.ints(old)} / {gen.ints(res['type'])}"),
+                # the definition GENERATED from the current source of redirect_tree / Tree.Node.parent / _sort_tree, run on the same input
+                ("gredirect " + a, f"{gen.ints(res['id'])} / {gen.ints(res['pid'])} / {gen.ints(res['type'])}")]
 
     def oracle(self, case, res):
         t = case["tree"]
